@@ -28,7 +28,9 @@ vars == <<cur, ticks, paused, ov, vals, tls, l, pred, wi>>
 
 I0(n) == <<"i", n>>
 B2I(b) == IF b THEN 1 ELSE 0
-ObsOk(r) == r.st = cur' /\ r.ended = B2I(IsEnded') /\ r.ticks = ticks' /\ r.paused = paused'
+\* the internal clock is only meaningful while the current state is animated (it is the time the
+\* timeline is evaluated at); in a state without timeline nothing observable depends on it
+ObsOk(r) == r.st = cur' /\ r.ended = B2I(IsEnded') /\ (tls'[cur'] # <<>> => r.ticks = ticks') /\ r.paused = paused'
 Flush == IF wi > 0 THEN PrintT(<<"PRED", ToJson([world |-> wi, pred |-> pred])>>) ELSE TRUE
 
 Init == /\ l = 1 /\ pred = <<>> /\ wi = 0
